@@ -243,3 +243,58 @@ Theorem C09_no_mutable_package_state :
   StateInventory.rg_mutated g = false /\ StateInventory.rg_escapes g = false.
 Proof. apply StateInventory.pkg_state_ok_spec. vm_compute. reflexivity. Qed.
 Print Assumptions C09_no_mutable_package_state.
+
+(** ** the reader.  The decoders above are functions of a byte string; the Go entry points are handed an io.Reader.
+    model/Reader.v: a reader is the list of answers its Read calls are going to give (chunks of any size, (0, nil)
+    answers, io.EOF or another error at the end - together with the last bytes or after them); io.ReadFull is
+    io.ReadAtLeast's loop over Read; a decoder that touches its reader through io.ReadFull only is a [Reader.prog].
+    io.ReadFull returns the first n bytes of the reader's content, or all of it with io.EOF / io.ErrUnexpectedEOF /
+    the reader's error when there are fewer, and leaves the rest; so such a decoder computes the same result, and
+    consumes the same bytes, through every reader with the same content and final error as through the plain byte
+    string - however the bytes are cut up, delayed or wrapped.  A decoder that looks at the reader's dynamic type (a
+    fast path for *bytes.Reader, *io.LimitedReader, anything with Len()) is outside this model; that the Go decoders
+    do not is the obligation [C09_reader_discipline] below. *)
+From GoBT Require model.Reader proofs.ReaderProofs.
+Theorem C09_read_full_spec : forall n r, ReaderProofs.ral_post n [] r (Reader.read_full n r).
+Proof. exact ReaderProofs.read_full_spec. Qed.
+Print Assumptions C09_read_full_spec.
+Theorem C09_read_full_consumes_prefix : forall n r,
+  Reader.content r = fst (fst (Reader.read_full n r)) ++ Reader.content (snd (Reader.read_full n r)).
+Proof. exact ReaderProofs.read_full_consumes_prefix. Qed.
+Print Assumptions C09_read_full_consumes_prefix.
+Theorem C09_decoder_depends_on_content_only : forall A (p : Reader.prog A) r1 r2,
+  Reader.content r1 = Reader.content r2 -> Reader.fin r1 = Reader.fin r2 ->
+  fst (Reader.run p r1) = fst (Reader.run p r2) /\
+  Reader.content (snd (Reader.run p r1)) = Reader.content (snd (Reader.run p r2)).
+Proof. exact ReaderProofs.run_depends_on_content_only. Qed.
+Print Assumptions C09_decoder_depends_on_content_only.
+Theorem C09_decoder_as_on_plain_bytes : forall A (p : Reader.prog A) r,
+  fst (Reader.run p r) = fst (Reader.run p (Reader.plain (Reader.content r) (Reader.fin r))).
+Proof. exact ReaderProofs.run_as_on_plain_bytes. Qed.
+Print Assumptions C09_decoder_as_on_plain_bytes.
+Example C09_reader_model_non_vacuous :
+  fst (Reader.run ReaderProofs.field_prog
+         (Reader.mkReader [Reader.EStall; Reader.EData [x03]; Reader.EStall; Reader.EData [x0a; x0b]; Reader.EData [];
+                           Reader.EData [x0c; x0d]] Reader.REOF true))
+  = Some [x0a; x0b; x0c] /\
+  fst (Reader.run ReaderProofs.field_prog (Reader.plain [x03; x0a; x0b; x0c; x0d] Reader.REOF)) = Some [x0a; x0b; x0c] /\
+  fst (Reader.run ReaderProofs.field_prog (Reader.mkReader [Reader.EData [x03; x0a]; Reader.EData [x0b]] Reader.ROther false)) = None.
+Proof. exact ReaderProofs.field_through_awkward_reader. Qed.
+
+(** Reader discipline (tie, translator part): in the source as it is NOW (gen/ReaderUse.v: every occurrence of every
+    io.Reader parameter in the library's packages) the decoders touch their reader only as the first argument of
+    io.ReadFull, or hand it on as the reader argument of a function that is in the table too; the exported
+    reader-based entry points are in the table.  A type assertion on the reader, a direct Read, a wrapper around it,
+    a stored reader is an entry of kind "other": this is the obligation that stops checking then. *)
+From GoBT Require gen.ReaderUse model.ReaderUse.
+Theorem C09_reader_discipline :
+  (forall u, In u gen.ReaderUse.reader_uses -> In (model.ReaderUse.ru_pkg u) (StateInventory.packages_of StateInventory.pC09) ->
+     model.ReaderUse.ru_kind u = "readfull"%string \/ model.ReaderUse.ru_kind u = "unused"%string \/
+     (model.ReaderUse.ru_kind u = "pass"%string /\
+      exists v, In v gen.ReaderUse.reader_uses /\ model.ReaderUse.ru_pkg v = model.ReaderUse.ru_pkg u /\
+                model.ReaderUse.bare (model.ReaderUse.ru_func v) = model.ReaderUse.ru_detail u)) /\
+  (forall f, In f model.ReaderUse.entry_points ->
+     exists u, In u gen.ReaderUse.reader_uses /\
+               In (model.ReaderUse.ru_pkg u) (StateInventory.packages_of StateInventory.pC09) /\ model.ReaderUse.ru_func u = f).
+Proof. apply model.ReaderUse.discipline_ok_spec. vm_compute. reflexivity. Qed.
+Print Assumptions C09_reader_discipline.
